@@ -1187,6 +1187,21 @@ TIGR_DATABASE = os.path.join(os.sep, "verif-no-such-dir", "tigrfam", "TIGRFam.hm
 TIGR_NAMES = {"acyl_carrier": "TIGR00517", "PKS_KS_like": "TIGR02813", "fabD": "TIGR00128", "NRPS_term": "TIGR01720"}
 MODULE_MAX_EVALUE = 0.01
 MODULE_MIN_SCORE = 0.0
+# path components that may lie above the real .../pfam/<version>/Pfam-A.hmm of a PFAM database: earlier 'pfam'
+# directories with or without a version below them, look-alikes and bare numbers. The version of a database is
+# that of the LAST pfam/<version> pair (pfamdb.get_db_version_from_path: "the typical antiSMASH layout of
+# .../pfam/'VERSION'/..."), which is also where cluster_hmmer/full_hmmer would look for the requested version
+# (<database_dir>/pfam/<version>/Pfam-A.hmm).
+PFAM_DECOYS = ["pfam/27.0", "pfam/34.0", "pfam/35.0", "pfam/36.0", "pfam/31.0", "pfam", "Pfam", "PFAM", "pfam-dbs",
+               "27.0", "36.0", "12", "dbs", "pfam/latest", "pfam/Pfam-A.hmm"]
+PFAM_VERSIONS = ["35.0", "35.0", "27.0", "31.0", "36.0"]
+
+
+def _pfam_database(spec: dict) -> str:
+    """ the database path of the saved PFAM results (older regression specs carry none) """
+    if "dbdir" not in spec:
+        return PFAM_DATABASE
+    return os.path.join(spec["dbdir"], "pfam", spec["db_version"], "Pfam-A.hmm")
 
 
 def _hmmer_record(spec: dict, record_id: str):
@@ -1204,7 +1219,7 @@ def _hmmer_module(tool: str):
 def _hmmer_original(spec: dict, record):
     from antismash.common import hmmer, pfamdb
     from antismash.detection.tigrfam.tigr_results import TIGRFamResults
-    database = TIGR_DATABASE if spec["tool"] == "tigrfam" else PFAM_DATABASE
+    database = TIGR_DATABASE if spec["tool"] == "tigrfam" else _pfam_database(spec)
     # instead of reading NAME/ACC from an HMM file that does not exist here
     pfamdb.KNOWN_MAPPINGS[database] = dict(TIGR_NAMES if spec["tool"] == "tigrfam" else PFAM_NAMES)
     by_profile: dict = {}
@@ -1220,9 +1235,11 @@ def _hmmer_original(spec: dict, record):
     return results
 
 
-def _hmmer_options(spec: dict, version: str = "35.0"):
+def _hmmer_options(spec: dict, version: str = None):
+    version = version or spec.get("db_version", "35.0")
+    extra = ["--databases", spec["dbdir"]] if "dbdir" in spec else []
     return _options(["--fullhmmer", "--clusterhmmer", "--tigrfam", "--fullhmmer-pfamdb-version", version,
-                     "--clusterhmmer-pfamdb-version", version])
+                     "--clusterhmmer-pfamdb-version", version] + extra)
 
 
 def _trimmed(model: dict, got: dict, max_evalue: float, min_score: float, where: dict) -> dict:
@@ -1278,6 +1295,13 @@ def _check_hmmer(spec: dict) -> dict:
     model = _loads(_dumps(original.to_json()))          # what the current generation is expected to save
     classes: set = set()
     changed = False
+    saved_version = spec.get("db_version", "35.0")
+    if tool != "tigrfam" and "dbdir" in spec:
+        parts = spec["dbdir"].split(os.sep)
+        if "pfam" in parts:
+            classes.add("earlier_pfam_component")
+        if any(one == "pfam" and two in PFAM_VERSIONS and two != saved_version for one, two in zip(parts, parts[1:])):
+            classes.add("earlier_pfam_other_version")
 
     def apply(results, target) -> tuple:
         return _guard(lambda: results.add_to_record(target))[:2]
@@ -1294,7 +1318,7 @@ def _check_hmmer(spec: dict) -> dict:
         data = _loads(current_text)
         where = {"step": number, "level": level, "change": change}
         record_id = spec["rid"]
-        version = "35.0"
+        version = saved_version
         strict = False
         if change:
             changed = True
@@ -1402,6 +1426,20 @@ def _check_hmmer(spec: dict) -> dict:
             _compare_text("effects", snap[1], want_snap[1], where)
         _compare_text("json_identity", _dumps(again.to_json()), text, dict(where, stage="post"))
         current_text = text
+    if tool != "tigrfam" and "dbdir" in spec:
+        # backstops for histories that never reached the reuse decision: the version that decision and the PFAM
+        # domain annotations take from the saved database path
+        from antismash.common import pfamdb
+        read = _guard(lambda: pfamdb.get_db_version_from_path(original.database))
+        if read[:2] != ("ok", saved_version):
+            raise Violation("saved_database_version_misread", {"database": original.database, "want": saved_version,
+                                                               "got": read[1:]})
+        if snap0[0] == "ok":
+            labelled = {feature["qualifiers"].get("database", [""])[0] for feature in _loads(snap0[1])["features"]
+                        if feature["type"] == "PFAM_domain"}
+            if labelled and labelled != {saved_version}:
+                raise Violation("pfam_domain_database_version", {"database": original.database,
+                                                                "want": saved_version, "got": sorted(labelled)})
     classes.add(f"steps_{len(spec['steps'])}")
     classes.add(f"tool_{tool}")
     classes.add(f"hits_{min(len(original.hits), 3)}")
@@ -1462,13 +1500,22 @@ def hmmer_specs(draw) -> dict:
     changes = [{"kind": "schema", "values": [1, 3, "2", "missing", None]},
                {"kind": "record_id", "values": ["rec2", "rec1 ", "REC1"]},
                {"kind": "refilter", "values": thresholds, "levels": ("class",)}]
+    spec = {"L": length, "genes": genes, "rid": "rec1", "tool": tool, "max_evalue": max_evalue,
+            "min_score": min_score, "hsps": hsps}
     if tool != "tigrfam":
-        changes.append({"kind": "pfam_version", "values": ["34.0", "36.0"], "levels": ("main",)})
+        # the database directory: decoy components above the real pfam/<version>
+        decoys = draw(st.lists(st.sampled_from(PFAM_DECOYS), min_size=0, max_size=3))
+        spec["dbdir"] = os.path.join(os.sep, "verif-no-such-dir", *[part for decoy in decoys for part in decoy.split("/")])
+        spec["db_version"] = draw(st.sampled_from(PFAM_VERSIONS))
+        # other versions to request: those the decoys name first of all
+        named = [decoy.split("/")[-1] for decoy in decoys if decoy.split("/")[-1] in PFAM_VERSIONS]
+        others = [version for version in named + ["34.0", "36.0"] if version != spec["db_version"]]
+        changes.append({"kind": "pfam_version", "values": others, "levels": ("main",)})
     steps = draw(simple_history(HMMER_LEVELS, changes, change_odds=2))
     for step in steps:
         step.pop("src")
-    return {"L": length, "genes": genes, "rid": "rec1", "tool": tool, "max_evalue": max_evalue,
-            "min_score": min_score, "hsps": hsps, "steps": steps}
+    spec["steps"] = steps
+    return spec
 
 
 # =========================================================================== HMMResult trees
